@@ -90,7 +90,7 @@ impl Session {
 pub struct QueuedFetch { pub rid: RepoId, pub from: NodeId }
 pub struct QueueError;
 impl QueueError { #[verifier::external_body] pub fn inner(&self) -> &QueuedFetch { unimplemented!() } }
-pub struct Sessions;
+pub struct Sessions { pub opaque: u64 } // (a field: states of the session table are distinguishable values)
 impl Sessions {
     /// ghost: the session of `nid` (if any) records `rid` as being fetched
     pub uninterp spec fn fetching_from(self, nid: NodeId, rid: RepoId) -> bool;
